@@ -253,6 +253,7 @@ def run(ctx):
                       "davidson %s not explained by the Davidson model at event %d/%d: %s (applications so far: %s)"
                       % (json.dumps(t_["cfg"]), matched + 1, total, json.dumps(ev)[:300], [e.get("ncols") for e in t_["ev"][:matched]]), {"cfg": t_["cfg"]})
     ctx.samples.append(traces[3])
+    ctx.replayed = nrows
     ctx.notes.update(table_rows_executed=nrows, davidson_runs=len(traces))
     ctx.assumptions += [
         "Hermitian A = Q diag(spectrum) Q^H with prescribed spectra (separated, clustered 1e-4, exactly degenerate, mixed sign), M = Q diag(0.7..1.6) Q^H",
